@@ -17,6 +17,7 @@ import (
 	"strings"
 	"time"
 
+	"rare/pkg/extractor/batchers"
 	"rare/pkg/followreader"
 	vrt "rare/verifrt"
 	"rare/verifrt/vos"
@@ -124,6 +125,10 @@ func (o *obs) expected(c *Config) []byte {
 }
 
 func body(c *Config, o *obs) {
+	// executions of one process must not see each other's package-level state
+	// (a shared watcher, a cache): the instrumenter generates these
+	followreader.VerifResetGlobals()
+	batchers.VerifResetGlobals()
 	fs := vos.Reset()
 	o.readerInc, o.judgedInc = -1, -1
 	if !c.Missing {
